@@ -122,7 +122,10 @@ impl OutConfig {
             respond_to_any_master: feature(self.any_master),
         };
         c.max_unsolicited_retries = self.max_unsol_retries.map(|x| x as usize);
-        c.unsolicited_retry_delay = Duration::from_millis(self.unsol_retry_delay_long_ms.unwrap_or(self.unsol_retry_delay_ms as u64));
+        c.unsolicited_retry_delay = Duration::from_millis(
+            self.unsol_retry_delay_long_ms
+                .unwrap_or(self.unsol_retry_delay_ms as u64),
+        );
         c.keep_alive_timeout = self.keep_alive_ms.map(|x| Duration::from_millis(x as u64));
         c.max_controls_per_request = self.max_controls;
         c.max_read_request_headers = self.max_read_headers;
